@@ -481,8 +481,9 @@ theorem run_maxmin_two_thirds {v : α → Nat} : ∀ (k : Nat), 0 < k → ∀ (x
       have hPlen : (xs.take (k' + 1)).length = k' + 1 := by rw [List.length_take]; omega
       have hPz : ∀ a ∈ xs.take (k' + 1), v xs[k' + 1] ≤ v a := by
         intro a ha
-        rw [hsplit, List.append_assoc] at hS
-        exact (List.pairwise_append.1 hS).2.2 a ha xs[k' + 1] (by simp)
+        obtain ⟨i, hi, rfl⟩ := List.mem_iff_getElem.1 ha
+        rw [List.getElem_take]
+        exact (List.pairwise_iff_getElem.1 hS) i (k' + 1) (by omega) hklt (by omega)
       have hpos : ∀ a ∈ xs.take (k' + 1), 1 ≤ v a := fun a ha => by have := hPz a ha; omega
       -- the state after `k` items
       obtain ⟨hperm, hlists, hcons⟩ := run_valid v hk (xs.take (k' + 1))
